@@ -50,7 +50,7 @@ def run(pid):
 
     def frame(i):
         return {"rate": rnd.choice(rates), "channels": rnd.choice([1, 2, 2, 3, 8]), "bps": rnd.choice([8, 12, 16, 20, 24, 32]),
-                "len": rnd.choice([1, 5, 16, 17, 64, 192]), "seed": rnd.randint(1, 10 ** 6), "signal": rnd.choice(["walk", "noise", "sine", "const"])}
+                "len": rnd.choice([1, 5, 16, 17, 64, 192]), "seed": rnd.randint(1, 10 ** 6), "signal": rnd.choice(["walk", "noise", "sine", "const", "panfirst", "panlast", "chanmix", "anti", "wasted"])}
 
     arrangements = []
     for i, a in enumerate(arrs):
